@@ -37,9 +37,11 @@ let dump_glyphs gs = join ";" dump_glyph gs
 let dump_hm ((long, lsbs) : (z * z) list * z list) : string =
   Printf.sprintf "%s:%s" (join "," (fun (a, l) -> zs a ^ "/" ^ zs l) long) (join "," zs lsbs)
 
+(* debug and release arithmetic differ only after an overflow, which is a Panic in debug: the
+   release run is needed only then *)
 let both (f : mode -> string) : string =
-  let d = f Debug and r = f Release in
-  if d = r then d else d ^ " || " ^ r
+  let d = f Debug in
+  if d <> "panic" then d else d ^ " || " ^ f Release
 
 let out f o = outcome_to_string f o
 
@@ -121,7 +123,9 @@ let judge (input : string) (impl : string) (model : string) : verdict =
   let k = kind input in
   let o = orig input in
   let parts = split_on '|' input in
-  if mres = "outside-model" then Agree
+  (* err:NotImplemented marks the one branch the model does not follow (GlyfTable::read_dep's
+     workaround for a loca entry beyond the end of a plain glyf table) *)
+  if mres = "outside-model" || mres = "err:NotImplemented" then Agree
   else if ires = "panic" then
     Violation ("panic",
                Printf.sprintf "%s: implementation panicked (%s build); model: debug=%s release=%s" k
